@@ -181,7 +181,27 @@ def strategy_scaling(res, tier, rng, replay):
 
 
 # =====================================================================================
-def spec_compare(c, g, m):
+def sensitivity(c, m):
+    """How much the documented formula itself moves, position by position, when every input is perturbed by a relative
+    1e-10: positions where that movement dwarfs the Go-vs-formula discrepancy have a cancelling denominator / difference
+    (ill-conditioned) and are exempt, as the property allows.  Only computed for cases that fail the plain comparison."""
+    prng = random.Random(987654321)
+    pert = [[v * (1.0 + 1e-10 * prng.uniform(-1, 1)) for v in s] for s in c[3]]
+    l2, g2, m2 = run_both([(c[0], c[1], c[2], pert, c[4])], prefix='p', spec=True)
+    mm = parse_ind(m2.get('p0', 'x'))
+    if mm['status'] != 'ok' or mm['spec'] is None or m['spec'] is None:
+        return None
+    out = []
+    for s1, s2 in zip(m['spec'], mm['spec']):
+        row = []
+        for a, b in zip(s1, s2):
+            x, y = h2f(a), h2f(b)
+            row.append(math.inf if (x != x or y != y or abs(x) == math.inf or abs(y) == math.inf) else abs(x - y))
+        out.append(row)
+    return out
+
+
+def spec_compare(c, g, m, sens=None):
     """Go outputs vs the documented formula (spec streams printed by the driver).
     Aligns by position: Go output k of an indicator with declared idle w is position w+k; spec
     stream element k is position start+k.  Returns (bad, compared, exempt) where bad is None or a dict."""
@@ -209,6 +229,9 @@ def spec_compare(c, g, m):
                 continue
             compared += 1
             if r is False:
+                if sens is not None and k < len(sens) and sj < len(sens[k]) and abs(h2f(a) - h2f(s[sj])) <= 1e-2 * sens[k][sj]:
+                    exempt += 1        # the discrepancy is what a 1e-12 relative change of the inputs does to the formula itself
+                    continue
                 return ({'output': k, 'position': pos, 'go': h2f(a), 'formula': h2f(s[sj])}, compared, exempt)
     return None, compared, exempt
 
@@ -270,7 +293,7 @@ def check_c01(res, tier, replay):
     cases = replay_cases(replay) if replay else [w for w, _ in wit] + gen_cases(rng, tier)
     lines, go, model = run_both(cases, spec=True)
     mism = correspondence(res, cases, lines, go, model, 'C01')
-    compared = exempt = bad_cases = 0
+    compared = exempt = bad_cases = conditioned = 0
     cells = set()
     known_seen = collections.defaultdict(int)
     known_fixed = set(findings)
@@ -282,6 +305,11 @@ def check_c01(res, tier, replay):
             continue
         n = len(c[3][0]) if c[3] else 0
         bad, cmpd, ex = spec_compare(c, g, m)
+        if bad is not None:
+            sens = sensitivity(c, m)
+            if sens is not None:
+                bad, cmpd, ex = spec_compare(c, g, m, sens)
+                conditioned += 1
         compared += cmpd
         exempt += ex
         per[c[0]] += cmpd
@@ -300,7 +328,10 @@ def check_c01(res, tier, replay):
         def fails(cand):
             l2, g2, m2 = run_both([cand], prefix='s', spec=True)
             gg, mm = parse_ind(g2.get('s0', 'x')), parse_ind(m2.get('s0', 'x'))
-            return gg['status'] == 'ok' and mm['status'] == 'ok' and spec_compare(cand, gg, mm)[0] is not None
+            if not (gg['status'] == 'ok' and mm['status'] == 'ok' and spec_compare(cand, gg, mm)[0] is not None):
+                return False
+            sn = sensitivity(cand, mm)
+            return sn is None or spec_compare(cand, gg, mm, sn)[0] is not None
         small = shrink_case(c, fails) if n <= 200 else c
         l2, g2, m2 = run_both([small], prefix='s', spec=True)
         gg, mm = parse_ind(g2.get('s0', 'x')), parse_ind(m2.get('s0', 'x'))
@@ -319,7 +350,7 @@ def check_c01(res, tier, replay):
         'rule': 'indicator x configuration x length-decile x regime, counted when at least one non-exempt value was '
                 'compared with the documented formula; lengths from {0,1,2,w-1,w,w+1,2w+2} and random; regimes walk, flat, '
                 'up, down, zigzag, ties, plateau (+signed, zeros for plain numeric series); dyadic values k/64',
-        'values_compared_with_formula': compared, 'exempt_positions': exempt, 'values_per_indicator': dict(per),
+        'values_compared_with_formula': compared, 'exempt_positions': exempt, 'cases_re_examined_for_conditioning': conditioned, 'values_per_indicator': dict(per),
         'traces_validated_against_impl': len(cases) - mism, 'go_vs_model_mismatches': mism,
         'formula_violations': bad_cases, 'known_findings_seen': dict(known_seen),
         'known_findings_not_reproduced': sorted(known_fixed),
@@ -582,8 +613,12 @@ def c15_eval(res, cases, lines, go, findings, stats):
                         problem = {'output': k, 'index': j, 'value': repr(v), 'note': 'non-finite value although the formula divides by no data'}
                     continue
                 stats['checked'] += 1
-                r1 = leq(lo, v, 1.0) if lo is not None else True
-                r2 = leq(v, hi, 1.0) if hi is not None else True
+                # "up to rounding": relative to the width of the documented range (a percentage computed as
+                # 100 - 100/(1 + ratio) carries a rounding error of a few ulps of 100, not of its own tiny value);
+                # non-negative quantities without an upper bound are judged relative to the data scale
+                rs = 1e3 * (max(abs(lo or 0.0), abs(hi or 0.0)) if (lo is not None and hi is not None) else scale)
+                r1 = leq(lo, v, rs) if lo is not None else True
+                r2 = leq(v, hi, rs) if hi is not None else True
                 if not (r1 and r2) and problem is None:
                     problem = {'output': k, 'index': j, 'value': v, 'range': [lo, hi]}
         if name in BANDS:
